@@ -280,6 +280,38 @@ func genURLWithQuery(t *rapid.T, label string) string {
 	return u
 }
 
+// genEndpointURL: http(s) locations as metadata in the wild spells them - including spellings a
+// URL library would write differently (upper-case scheme or host, template braces, spaces,
+// non-ASCII, an empty query or fragment): they are http(s) endpoints and must come back verbatim.
+func genEndpointURL(t *rapid.T, label string) string {
+	u := genURLWithQuery(t, label)
+	switch rapid.IntRange(0, 11).Draw(t, label+"spelling") {
+	case 0:
+		if i := strings.Index(u, "://"); i > 0 {
+			u = strings.ToUpper(u[:i]) + u[i:]
+		}
+	case 1:
+		u = strings.ToUpper(u[:strings.Index(u, "://")+3]) + strings.ToUpper(u[strings.Index(u, "://")+3:])
+	case 2:
+		u += "/{tenant}/acs"
+	case 3:
+		u += "/a b"
+	case 4:
+		u += "/caf\u00e9"
+	case 5:
+		u += "#"
+	case 6:
+		if !strings.Contains(u, "?") {
+			u += "?"
+		}
+	case 7:
+		u += "/%7Euser/%2f"
+	case 8:
+		u += "/a/../b/./c"
+	}
+	return u
+}
+
 func genSP(t *rapid.T) *SPConf {
 	sec, nsec, zone := genInstant(t)
 	// keep now+valid within years 1..9999
@@ -389,9 +421,9 @@ func genEndpoints(t *rapid.T, label string) []saml.Endpoint {
 	n := rapid.IntRange(0, 2).Draw(t, label+"n")
 	var out []saml.Endpoint
 	for i := 0; i < n; i++ {
-		e := saml.Endpoint{Binding: genBinding(t, label+"b"), Location: genURLWithQuery(t, label+"loc")}
+		e := saml.Endpoint{Binding: genBinding(t, label+"b"), Location: genEndpointURL(t, label+"loc")}
 		if rapid.Bool().Draw(t, label+"resp?") {
-			e.ResponseLocation = genURLWithQuery(t, label+"resp")
+			e.ResponseLocation = genEndpointURL(t, label+"resp")
 		}
 		out = append(out, e)
 	}
@@ -402,9 +434,9 @@ func genIndexedEndpoints(t *rapid.T, label string) []saml.IndexedEndpoint {
 	n := rapid.IntRange(0, 3).Draw(t, label+"n")
 	var out []saml.IndexedEndpoint
 	for i := 0; i < n; i++ {
-		e := saml.IndexedEndpoint{Binding: genBinding(t, label+"b"), Location: genURLWithQuery(t, label+"loc"), Index: rapid.IntRange(-2, 70000).Draw(t, label+"idx")}
+		e := saml.IndexedEndpoint{Binding: genBinding(t, label+"b"), Location: genEndpointURL(t, label+"loc"), Index: rapid.IntRange(-2, 70000).Draw(t, label+"idx")}
 		if rapid.Bool().Draw(t, label+"resp?") {
-			r := genURLWithQuery(t, label+"resp")
+			r := genEndpointURL(t, label+"resp")
 			e.ResponseLocation = &r
 		}
 		if rapid.Bool().Draw(t, label+"def?") {
